@@ -162,7 +162,7 @@ func r4k(n int64) int64 { return (n + 4095) / 4096 * 4096 }
 func driver(seed uint64, n int, outV, outJSON string, _ []string) {
 	r := &Rng{S: seed}
 	rep := NewReport("crash", seed)
-	rep.Rule = "a sequential prefix of uploads (AC/CAS/RAW, overwrites, evictions with the remover gated), then a crash image taken at one of: k bytes into an upload (from inside its reader), the commit yield point (file complete, not indexed), between two unlinks of the remover, quiescence; access times of the image set to a random distinct order; restart with the same or the other storage mode and the same or a smaller max_size; every key read with known and unknown size; non-trivial = the image contains a file that is not an indexed entry (torn, uncommitted or evicted-not-unlinked) or the restart evicted something; distinct canonical case texts counted"
+	rep.Rule = "a sequential prefix of uploads (AC/CAS/RAW, overwrites, evictions with the remover gated), then a crash image taken at one of: k bytes into an upload (from inside its reader), the end of an upload whose bytes do not match the digest (all bytes written, end of stream not yet seen), the commit yield point (file complete, not indexed), between two unlinks of the remover, quiescence; access times of the image set to a random distinct order; restart with the same or the other storage mode and the same or a smaller max_size; every key read with known and unknown size; non-trivial = the image contains a file that is not an indexed entry (torn, uncommitted or evicted-not-unlinked) or the restart evicted something; distinct canonical case texts counted"
 	log.SetOutput(io.Discard)
 	install()
 	ctx := context.Background()
@@ -175,6 +175,10 @@ func driver(seed uint64, n int, outV, outJSON string, _ []string) {
 		createdOnly := c == 1 // corpus case: uncompressed mode, killed after file creation, before the first byte
 		if createdOnly {
 			zstdMode = false
+		}
+		corruptCorpus := c == 2 // corpus case: zstd mode, a corrupt CAS upload killed while the server waits for the end of the stream
+		if corruptCorpus {
+			zstdMode = true
 		}
 		mode := map[bool]string{true: "zstd", false: "uncompressed"}[zstdMode]
 		g = &gates{evPark: make(chan string, 1), reqPark: make(chan string), evGo: make(chan struct{}), reqGo: make(chan struct{}), enabled: true}
@@ -237,7 +241,7 @@ func driver(seed uint64, n int, outV, outJSON string, _ []string) {
 		incomplete := map[string]bool{} // rel path of the file being written at the crash
 		kindOfCrash := r.Intn(4)
 		reupload := c == 0 // corpus case: an interrupted re-upload of an acknowledged CAS blob
-		if createdOnly {
+		if createdOnly || corruptCorpus {
 			kindOfCrash = 0
 		}
 		if reupload {
@@ -255,15 +259,32 @@ func driver(seed uint64, n int, outV, outJSON string, _ []string) {
 			if createdOnly {
 				u = up{cache.CAS, blobs[3].hash, blobs[3]}
 			}
+			if corruptCorpus {
+				for _, b := range blobs {
+					if len(completed["cas/"+b.hash]) == 0 {
+						u = up{cache.CAS, b.hash, b}
+					}
+				}
+			}
 			k := 0
 			if len(u.b.data) > 1 && !createdOnly {
 				k = r.Intn(len(u.b.data))
+			}
+			// a CAS upload whose bytes do NOT match the digest, killed at the last crash point: every
+			// declared byte has been delivered and written, the server is waiting for the end of the stream
+			// (the hash verdict and, in zstd mode, the final chunk table come only after that)
+			sent := u.b.data
+			corruptEnd := !reupload && !createdOnly && u.kind == cache.CAS && len(completed["cas/"+u.hash]) == 0 && (r.Chance(25) || corruptCorpus)
+			if corruptEnd {
+				sent = append([]byte{}, u.b.data...)
+				sent[r.Intn(len(sent))] ^= 0x5a
+				k = len(sent)
 			}
 			before := map[string]bool{}
 			for _, f := range snapshotDir(realDir) {
 				before[f.rel] = true
 			}
-			rd := &crashReader{data: u.b.data, at: k, fire: func() {
+			rd := &crashReader{data: sent, at: k, fire: func() {
 				take()
 				for _, f := range image {
 					if !before[f.rel] {
@@ -273,8 +294,13 @@ func driver(seed uint64, n int, outV, outJSON string, _ []string) {
 			}}
 			_ = dc.Put(ctx, u.kind, u.hash, int64(len(u.b.data)), rd)
 			inflightKey = u.kind.String() + "/" + u.hash
-			text = append(text, fmt.Sprintf("CRASH %d bytes into Put(%s,%s..,%d)", k, u.kind.String(), u.hash[:6], len(u.b.data)))
-			rep.Count("crash.mid-upload")
+			if corruptEnd {
+				text = append(text, fmt.Sprintf("CRASH at the end of a corrupt Put(%s,%s..,%d)", u.kind.String(), u.hash[:6], len(u.b.data)))
+				rep.Count("crash.end-of-corrupt-upload")
+			} else {
+				text = append(text, fmt.Sprintf("CRASH %d bytes into Put(%s,%s..,%d)", k, u.kind.String(), u.hash[:6], len(u.b.data)))
+				rep.Count("crash.mid-upload")
+			}
 		case 1: // file complete, commit not yet done
 			u := pick()
 			my.parkCommit = true
